@@ -84,6 +84,9 @@ KIND_COQ = {'cpa': 'ACpa', 'dpa': 'ADpa', 'anova': '(APart Partitioned.ANOVA)', 
 CLS = {'cpa': 'CPAAttack', 'dpa': 'DPAAttack', 'anova': 'ANOVAAttack', 'nicv': 'NICVAttack', 'snr': 'SNRAttack', 'mia': 'MIAAttack',
        'tdpa': 'TemplateDPAAttack'}
 MIN_SUBSET = 8
+# SelectionFunction.__call__ copies EVERY signature parameter found in the metadata into _base_kwargs, `guesses` included: a trace set
+# with a metadata field called `guesses` replaces the guesses of every ready-made attack selection function (defect on the unchanged tree)
+GUESSES_TAG = 'metadata_field_named_guesses_replaces_the_guesses'
 
 _patched = {}
 
@@ -403,7 +406,96 @@ def mia_edges2(case):
     return [2 * (lo + width * i) - 1 for i in range(nb + 1)]
 
 
-def make_case(rng, tier, cipher=None, sf=None, keysize=None, model=None, amp=None, batch=None, N=None, fips=False):
+def choose_words(rng, case, nwords, k, wform=None):
+    """words argument of the selection function: the attacked words IN THE REQUESTED ORDER (case['words']) and the form they are
+    given in.  Descending / rotated runs of consecutive words, unordered samples, ascending samples, slices (step 1 or 2), one int."""
+    wform = wform or rng.choice(['desc', 'desc', 'rot', 'shuffled', 'shuffled', 'sorted', 'slice', 'int'])
+    case['words_slice'] = None
+    if wform == 'int':
+        case['words'], case['words_form'] = [rng.randrange(nwords)], 'int'
+    elif wform == 'slice':
+        step = rng.choice([1, 1, 2])
+        a = rng.randrange(nwords - step * (k - 1))
+        case['words'], case['words_form'] = [a + step * i for i in range(k)], 'slice'
+        case['words_slice'] = [a, a + step * (k - 1) + 1, step]
+    else:
+        if wform in ('desc', 'rot'):
+            a = rng.randrange(nwords - k + 1)
+            run = list(range(a, a + k))
+            ws = run[::-1] if (wform == 'desc' or k < 3) else [run[-1]] + run[:-1]
+        else:
+            ws = rng.sample(range(nwords), k)
+            if wform == 'sorted':
+                ws = sorted(ws)
+        case['words'], case['words_form'] = ws, rng.choice(['list', 'ndarray'])
+    case['words_kind'] = wform
+
+
+TARGET_IS_PLAINTEXT = {'FirstAddRoundKey', 'FirstSubBytes', 'FirstSboxes', 'FeistelRFirstRounds', 'DeltaRFirstRounds'}
+
+
+def choose_metadata(rng, case, extra=None, mtags=None):
+    """Names under which the trace set carries the targeted text and how compute_expected_key is given the key (custom tags), and
+    ADDITIONAL metadata fields of random bytes named like the inner parameters of the selection functions."""
+    pt_target = case['sf'] in TARGET_IS_PLAINTEXT
+    if mtags is None:
+        mtags = {'target': rng.choice([None, None, 'pt_in' if pt_target else 'ct_out', 'input']),
+                 'key': rng.choice([None, None, 'master_key'])}
+    if extra is None:
+        extra = [n for n in ('data', 'key') if rng.random() < 0.4]
+        if mtags['target'] and rng.random() < 0.7:
+            extra.append('other')          # fields called plaintext / ciphertext that are NOT the texts of the campaign
+    case['mtags'], case['extra'] = mtags, extra
+
+
+def metadata_of(case, A):
+    """(metadata arrays of the trace set, keyword arguments of the selection function constructor, of compute_expected_key)."""
+    rng = random.Random(case['data_seed'] ^ 0xE17A)
+    n, blk = len(A['pt']), A['pt'].shape[1]
+
+    def junk(width):
+        return np.array([[rng.randrange(256) for _ in range(width)] for _ in range(n)], dtype='uint8')
+
+    pt_target = case['sf'] in TARGET_IS_PLAINTEXT
+    tag = case.get('mtags', {}).get('target')
+    ktag = case.get('mtags', {}).get('key')
+    extra = case.get('extra', [])
+    md, sfkw = {}, {}
+    if tag:
+        md[tag] = A['pt'] if pt_target else A['ct']
+        sfkw['plaintext_tag' if pt_target else 'ciphertext_tag'] = tag
+        if 'other' in extra:
+            md['plaintext'], md['ciphertext'] = junk(blk), junk(blk)
+        else:
+            md['ciphertext' if pt_target else 'plaintext'] = A['ct'] if pt_target else A['pt']
+    else:
+        md['plaintext'], md['ciphertext'] = A['pt'], A['ct']
+    for name in ('data', 'guesses'):
+        if name in extra:
+            md[name] = junk(blk)
+    ekkw = {ktag or 'key': np.array(case['key'], dtype='uint8')}
+    if ktag:
+        sfkw['key_tag'] = ktag
+    if 'key' in extra:
+        md['key'] = junk(len(case['key']))
+        if ktag:
+            ekkw['key'] = md['key'][0]          # compute_expected_key called with the metadata of the trace set + the master key
+    return md, sfkw, ekkw
+
+
+def words_obj(case):
+    f = case.get('words_form', 'list')
+    if f == 'int':
+        return int(case['words'][0])
+    if f == 'slice':
+        return slice(*case['words_slice'])
+    if f == 'ndarray':
+        return np.array(case['words'], dtype=['uint8', 'int64', 'int32'][case['data_seed'] % 3])
+    return list(case['words'])
+
+
+def make_case(rng, tier, cipher=None, sf=None, keysize=None, model=None, amp=None, batch=None, N=None, fips=False, wform=None,
+              extra=None, mtags=None):
     cipher = cipher or rng.choice(['aes', 'aes', 'des'])
     sf = sf or rng.choice(AES_SF if cipher == 'aes' else DES_SF)
     keysize = (keysize or rng.choice([16, 24, 32])) if cipher == 'aes' else 8
@@ -420,13 +512,14 @@ def make_case(rng, tier, cipher=None, sf=None, keysize=None, model=None, amp=Non
     case['model'] = model
     nwords = 16 if cipher == 'aes' else 8
     k = 2 if tier == 'quick' else rng.choice([2, 3])
-    case['words'] = sorted(rng.sample(range(nwords), k))
+    choose_words(rng, case, nwords, k, wform)
+    k = len(case['words'])
     S = rng.randint(max(4, k + 1), 6)
     case['S'] = S
     slots = rng.sample(range(S), min(S, k + rng.randint(0, min(2, S - k))))
     leaks = [[slots[i]] for i in range(k)]
-    for extra in slots[k:]:
-        leaks[rng.randrange(k)].append(extra)
+    for more in slots[k:]:
+        leaks[rng.randrange(k)].append(more)
     case['leaks'] = [sorted(x) for x in leaks]
     free = [x for x in range(S) if x not in slots]
     case['const'] = [rng.choice(free)] if free and rng.random() < 0.4 else []
@@ -441,6 +534,7 @@ def make_case(rng, tier, cipher=None, sf=None, keysize=None, model=None, amp=Non
         case['NB'] = rng.choice([150, 200])
     case['edges2'] = mia_edges2(case)
     case['attacks'] = attacks_for(rng, case, tier)
+    choose_metadata(rng, case, extra, mtags)
     return case
 
 
@@ -472,6 +566,16 @@ def boundary(rng, tier):
     # noise-free: r = 1, NICV = 1 at the true key
     yield make_case(rng, tier, cipher='aes', sf='FirstSubBytes', keysize=16, model=['hw'], amp=0, N=80, batch=0)
     yield make_case(rng, tier, cipher='des', sf='FirstSboxes', model=['value'], amp=0, N=80, batch=7)
+    # words forms and metadata names that the random stream may miss in the quick tier
+    yield make_case(rng, tier, cipher='aes', sf='FirstSubBytes', keysize=16, model=['hw'], wform='desc', extra=['data'], mtags={'target': None, 'key': None})
+    yield make_case(rng, tier, cipher='des', sf='LastSboxes', model=['hw'], wform='desc', extra=['data', 'key', 'other'],
+                    mtags={'target': 'ct_out', 'key': 'master_key'})
+    yield make_case(rng, tier, cipher='aes', sf='LastSubBytes', keysize=24, model=['hw'], wform='int', extra=['key'], mtags={'target': None, 'key': 'master_key'})
+    # a trace set with a metadata field called `guesses` (see GUESSES_TAG)
+    c = make_case(rng, tier, cipher='aes', sf='FirstSubBytes', keysize=16, model=['hw'], amp=1, wform='sorted', extra=['guesses'],
+                  mtags={'target': None, 'key': None})
+    c['attacks'] = [a for a in c['attacks'] if a['cls'] == 'cpa']
+    yield c
 
 
 class CampaignKind(Kind):
@@ -498,7 +602,14 @@ class CampaignKind(Kind):
     def _sf(self, case, words):
         from scared import aes, des
         mod = aes if case['cipher'] == 'aes' else des
-        return getattr(mod.selection_functions.encrypt, case['sf'])(words=words)
+        pt_target = case['sf'] in TARGET_IS_PLAINTEXT
+        tags = case.get('mtags', {})
+        kw = {}
+        if tags.get('target'):
+            kw['plaintext_tag' if pt_target else 'ciphertext_tag'] = tags['target']
+        if tags.get('key'):
+            kw['key_tag'] = tags['key']
+        return getattr(mod.selection_functions.encrypt, case['sf'])(words=words, **kw)
 
     def _model(self, case):
         import scared
@@ -525,12 +636,14 @@ class CampaignKind(Kind):
         parts = partitions_of(case)
         edges = [e / 2 for e in case['edges2']]
         results = []
-        sf = shared['sf'] if shared else self._sf(case, words)
+        md, _, ekkw = metadata_of(case, A)
+        one = case.get('words_form') == 'int'
+        sf = shared['sf'] if shared else self._sf(case, words_obj(case))
         model = shared['model'] if shared else self._model(case)
-        calls = [np.asarray(sf.compute_expected_key(key=key)).reshape(-1)]          # before any run
+        calls = [np.asarray(sf.compute_expected_key(**ekkw)).reshape(-1)]          # before any run
         try:
             scared.set_batch_size(case['batch'] if case['batch'] else None)
-            conts = [scared.Container(estraces.read_ths_from_ram(samples=samples[a:b], plaintext=A['pt'][a:b], ciphertext=A['ct'][a:b]))
+            conts = [scared.Container(estraces.read_ths_from_ram(samples=samples[a:b], **{k: v[a:b] for k, v in md.items()}))
                      for a, b in pieces]
             obs['container_batch_size'] = int(conts[0].batch_size)
             with warnings.catch_warnings():
@@ -547,7 +660,7 @@ class CampaignKind(Kind):
                                                      selection_function=self._sf(case, w), partitions=parts, **kw)
                         a.build()
                     else:
-                        kw.update(selection_function=sf if shared else self._sf(case, words), discriminant=getattr(scared, att['disc']))
+                        kw.update(selection_function=sf if shared else self._sf(case, words_obj(case)), discriminant=getattr(scared, att['disc']))
                         if k in ('anova', 'nicv', 'snr', 'mia'):
                             kw['partitions'] = parts
                         if k == 'mia':
@@ -560,13 +673,16 @@ class CampaignKind(Kind):
             scared.set_batch_size(None)
         # expected key (asked again, twice) and the hypothesis data, from the same selection function / model objects
         G = int(len(sf.guesses))
-        calls.append(np.asarray(sf.compute_expected_key(key=key)).reshape(-1))
-        calls.append(np.asarray(sf.compute_expected_key(key=key)).reshape(-1))
+        calls.append(np.asarray(sf.compute_expected_key(**ekkw)).reshape(-1))
+        calls.append(np.asarray(sf.compute_expected_key(**ekkw)).reshape(-1))
         obs['expected_calls'] = [[int(c[w]) for w in words] for c in calls]
         obs['expected'] = obs['expected_calls'][-1]
-        hyp = np.asarray(model(sf(plaintext=A['pt'], ciphertext=A['ct'])))
+        hyp = np.asarray(model(sf(**md)))
+        if one and hyp.shape == (N, G):
+            hyp = hyp.reshape(N, G, 1)
         if hyp.shape != (N, G, len(words)):
-            raise HarnessError(f'C17 harness: hypothesis data of shape {hyp.shape}, expected {(N, G, len(words))}')
+            raise ValueError(f'model(selection_function(**metadata)) has shape {hyp.shape}, not (traces, guesses, words) = {(N, G, len(words))}; '
+                             f'.scores shapes: {[tuple(np.asarray(a.scores).shape) for a in results]}')
         obs['n_guesses'] = G
         # per attack and word: shape, argmax, candidates for the evaluated subset
         per = []
@@ -574,7 +690,7 @@ class CampaignKind(Kind):
         for att, a in zip(case['attacks'], results):
             sc = np.asarray(a.scores)
             wis = [att['word']] if att['cls'] == 'tdpa' else list(range(len(words)))
-            want = (G,) if att['cls'] == 'tdpa' else (G, len(words))
+            want = (G,) if (att['cls'] == 'tdpa' or one) else (G, len(words))
             entry = {'shape': [int(v) for v in sc.shape], 'shape_ok': tuple(sc.shape) == want, 'dtype': str(sc.dtype)}
             if entry['shape_ok']:
                 sc2 = sc.reshape(G, -1)
@@ -681,12 +797,16 @@ class CampaignKind(Kind):
         return 'raised' not in obs and any(a['sep'] for a in obs['attacks'])
 
     def tags(self, case, obs):
+        if 'guesses' in case.get('extra', []):
+            return [GUESSES_TAG]
         return [self.name, f'{self.name}_{case["cipher"]}_{case["sf"]}']
 
     def features(self, case, obs):
         f = {'cipher_sf': f'{case["cipher"]}.{case["sf"]}', 'keysize': len(case['key']), 'model': case['model'][0], 'amp': case['amp'],
              'batch': case['batch'] or 'default', 'N': case['N'], 'precision': case['precision'], 'words': len(case['words']),
-             'constant_sample_in_frame': bool(case.get('const')) or case['amp'] == 0}
+             'constant_sample_in_frame': bool(case.get('const')) or case['amp'] == 0,
+             'words_arg': f"{case.get('words_kind')}/{case.get('words_form')}", 'extra_metadata': '+'.join(sorted(case.get('extra', []))) or 'none',
+             'custom_tags': '+'.join(k for k, v in sorted(case.get('mtags', {}).items()) if v) or 'none'}
         if 'raised' not in obs:
             n = len(obs['attacks'])
             d = sum(1 for a in obs['attacks'] if not a['sep'])
@@ -765,7 +885,7 @@ class HistoryKind(CampaignKind):
 
     def run(self, case):
         c0 = case['campaigns'][0]
-        shared = {'sf': self._sf(c0, c0['words']), 'model': self._model(c0)}
+        shared = {'sf': self._sf(c0, words_obj(c0)), 'model': self._model(c0)}
         return {'campaigns': [self.drive(c, shared) for c in case['campaigns']]}
 
     def coq(self, case, obs):
